@@ -18,3 +18,4 @@ pub mod e_resolve;
 pub mod e_total;
 pub mod audit;
 pub mod e_gc;
+pub mod e_bytecode;
